@@ -181,6 +181,7 @@ PROPS = {
         "assumptions": ["unbounded parenthesis nesting exhausts the Rust stack; not claimed (the model's fuel is proved sufficient, the stack is not modelled)"],
     },
     "C17": {
+        "ext_in_quick": True,
         "lean_targets": ["Pep508.Theorems.C17b", "Pep508.Theorems.C17", "Pep508.Theorems.NonVacuityB"],
         "theorems": ["Pep508.C17.drop_is_removal", "Pep508.C17.warnings_in_order", "Pep508.C17.every_warning_reported", "Pep508.C17.dropped_reports", "Pep508.C17.pruned_atoms", "Pep508.C17.nothing_remains_iff", "Pep508.C17.parse_is_pruned", "Pep508.C17.uninterpretable_anywhere", "Pep508.C17.parse_same_tree", "Pep508.C17.parse_all_dropped", "Pep508.C17.pruned_wf_iff", "Pep508.C17.pruned_wf_can_fail", "Pep508.C17.atom_shape", "Pep508.C17.atom_string_op_string", "Pep508.C17.atom_key_op_key", "Pep508.C17.shape_dropped", "Pep508.C17.word_operator_needs_alpha", "Pep508.C17.example_paren_or", "Pep508.C17.reported_and_dropped", "Pep508.C17.never_silently", "Pep508.C17.version_kept_quiet", "Pep508.C17.chain_skips_dropped",
                      "Pep508.C17.chain_first_kept", "Pep508.dispatch_strKey_quoted", "Pep508.dispatch_quoted_strKey", "Pep508.dispatch_extra_valid", "Pep508.dispatch_extra_invalid"],
@@ -299,7 +300,7 @@ PROPS = {
                 "suffixes (none, extras, marker, both, spaced extras, trailing blanks): never accepted as a named requirement and rejected with the unsupported-requirement kind; every outcome "
                 "is compared with the Lean model (looksLikeUnnamed, splitScheme, splitExtras, looksLikeArchive with the std::path extension rules); split_scheme / split_extras are compared "
                 "directly; non-trivial = distinct texts",
-        "trusted": ["the unnamed-requirement parser (feature non-pep508-extensions) is exercised only when the harness is built with that feature (quick and thorough tier of C19, C08, C06, C18; thorough tier of the others)"], "assumptions": [],
+        "trusted": ["the unnamed-requirement parser (feature non-pep508-extensions) is exercised only when the harness is built with that feature (quick and thorough tier of C19, C08, C06, C18, C17; thorough tier of the others)"], "assumptions": [],
     },
 }
 
